@@ -26,8 +26,13 @@ theorem insert_le (T : StrTab) (s : Bytes) : Le T (T.insert s).1 := by
 structure TabOK (T : StrTab) : Prop where
   inv : T.Inv
   len : ∀ s off, (s, off) ∈ T.index → s.length ≤ T.bytes.length
+  /-- where an indexed string sits in the bytes -/
+  shape : ∀ s off, (s, off) ∈ T.index → ∃ pre post,
+    T.bytes = pre ++ (lebWrite s.length ++ s) ++ post ∧ pre.length = off ∧
+    validUtf8 s = true ∧ s.length < usizeBound
 
-theorem tabOK_empty : TabOK StrTab.empty := ⟨StrTab.empty_inv, by simp [StrTab.empty]⟩
+theorem tabOK_empty : TabOK StrTab.empty :=
+  ⟨StrTab.empty_inv, by simp [StrTab.empty], by simp [StrTab.empty]⟩
 
 theorem insert_len_le (T : StrTab) (h : TabOK T) (s : Bytes) :
     s.length ≤ (T.insert s).1.bytes.length ∨ s = [] := by
@@ -49,22 +54,38 @@ theorem insert_ok (T : StrTab) (h : TabOK T) (s : Bytes) (hs : validUtf8 s = tru
     · omega
     · subst h1; simp [usizeBound]
   obtain ⟨h1, _, _, _, h5⟩ := StrTab.insert_spec T h.inv s hs hl
-  refine ⟨⟨h1, ?_⟩, h5⟩
-  intro s' off' hm
-  revert hm
-  unfold StrTab.insert
-  by_cases hse : s = []
-  · subst hse; simp only [List.isEmpty_nil, if_true]; intro hm; exact h.len s' off' hm
-  · have hne : s.isEmpty = false := by simpa using hse
-    simp only [hne, Bool.false_eq_true, if_false]
-    cases hlk : T.index.lookup s with
-    | some off => intro hm; exact h.len s' off' hm
-    | none =>
-      simp only [List.mem_cons, Prod.mk.injEq, List.length_append]
-      intro hm
-      rcases hm with ⟨rfl, _⟩ | hm
-      · omega
-      · have := h.len s' off' hm; omega
+  refine ⟨⟨h1, ?_, ?_⟩, h5⟩
+  · intro s' off' hm
+    revert hm
+    unfold StrTab.insert
+    by_cases hse : s = []
+    · subst hse; simp only [List.isEmpty_nil, if_true]; intro hm; exact h.len s' off' hm
+    · have hne : s.isEmpty = false := by simpa using hse
+      simp only [hne, Bool.false_eq_true, if_false]
+      cases hlk : T.index.lookup s with
+      | some off => intro hm; exact h.len s' off' hm
+      | none =>
+        simp only [List.mem_cons, Prod.mk.injEq, List.length_append]
+        intro hm
+        rcases hm with ⟨rfl, _⟩ | hm
+        · omega
+        · have := h.len s' off' hm; omega
+  · intro s' off' hm
+    revert hm
+    unfold StrTab.insert
+    by_cases hse : s = []
+    · subst hse; simp only [List.isEmpty_nil, if_true]; intro hm; exact h.shape s' off' hm
+    · have hne : s.isEmpty = false := by simpa using hse
+      simp only [hne, Bool.false_eq_true, if_false]
+      cases hlk : T.index.lookup s with
+      | some off => intro hm; exact h.shape s' off' hm
+      | none =>
+        simp only [List.mem_cons, Prod.mk.injEq]
+        intro hm
+        rcases hm with ⟨rfl, rfl⟩ | hm
+        · exact ⟨T.bytes, [], by simp, rfl, hs, hl⟩
+        · obtain ⟨pre, post, e1, e2, e3, e4⟩ := h.shape s' off' hm
+          exact ⟨pre, post ++ (lebWrite s.length ++ s), by rw [e1]; simp, e2, e3, e4⟩
 
 /-- the `u32` offset the table hands out for `s` -/
 def off (T : StrTab) (s : Bytes) : Nat := (T.insert32 s).2
